@@ -1,5 +1,10 @@
 mod storage;
 
+#[cfg(feature = "verif")]
+pub mod verif {
+    pub use super::storage::{extract_response_peers, TorrentMaps};
+}
+
 use std::cell::RefCell;
 use std::rc::Rc;
 use std::time::Duration;
